@@ -712,14 +712,17 @@ fn oracle_fit(ctx: &mut Ctx, fc: &FitCase, ft: &Fitted, class: &str) {
             }
             ctx.require(s.abs() <= 64.0 * fe * (1.0 + sumabs) * (n as f64).sqrt(), "equality", class, || format!("sum of y_i alpha_i = {}", s));
         }
-        Mode::Nu(_) => {
-            let c = amax;
+        Mode::Nu(nu) => {
+            // published alpha = alpha_raw / r with sum(alpha_raw) = nu * n, 0 <= alpha_raw <= 1:
+            // the bound is 1/r = sum|alpha| / (nu n) and the solver tolerance scales by 1/r too
+            let nu_ = if fc.f32_ { (nu as f32) as f64 } else { nu };
+            let c = sumabs / (nu_ * n as f64);
             let mut s = 0.0;
             for i in 0..n {
                 let ys = if fc.yb[i] { 1.0 } else { -1.0 };
                 let al = ys * a[i];
                 s += a[i];
-                ctx.require(al >= 0.0, "box", class, || format!("sample {} (y {}): coefficient {} negative", i, ys, al));
+                ctx.require(al >= 0.0 && al <= c * (1.0 + 1e3 * fe), "box", class, || format!("sample {} (y {}): coefficient {} outside [0, 1/r = {}]", i, ys, al, c));
                 let yf = ys * f[i];
                 if al < c - delta(c) {
                     ctx.require(yf >= 1.0 - tol * (1.0 + c), "kkt_margin", class, || format!("sample {} with alpha {} < bound {} lies inside the margin: y f = {}", i, al, c, yf));
@@ -838,7 +841,7 @@ pub fn run(em: &mut Em, rng: &mut Rng) {
     }
     let thorough = em.thorough();
     // ---- scripted steps
-    let nstep = if thorough { 6000 } else { 700 };
+    let nstep = if thorough { 20000 } else { 2500 };
     for _ in 0..nstep {
         let pr = gen_prob(rng, if thorough { 12 } else { 8 }, false);
         let len = 1 + rng.below(if thorough { 14 } else { 9 });
@@ -859,7 +862,7 @@ pub fn run(em: &mut Em, rng: &mut Rng) {
         op_step(em, &pr, &sc);
     }
     // ---- full solves on small problems
-    let nsolve = if thorough { 4000 } else { 500 };
+    let nsolve = if thorough { 12000 } else { 1500 };
     for t in 0..nsolve {
         let mut pr = gen_prob(rng, if thorough { 16 } else { 10 }, true);
         // feasible start of C-SVC unless the draw is a general start
@@ -871,7 +874,7 @@ pub fn run(em: &mut Em, rng: &mut Rng) {
         op_solve(em, &pr, shrinking);
     }
     // ---- public API fits
-    let nfit = if thorough { 700 } else { 90 };
+    let nfit = if thorough { 1500 } else { 250 };
     for t in 0..nfit {
         let n = if thorough {
             if t % 25 == 0 {
